@@ -26,6 +26,14 @@ CHECKS = {
    "metamorphic exploration: every state analysed under the direct spelling and under each identical-type spelling",
    "Every state of the C01-C04 universes (bounded) is analysed twice by the real analyzers - type named directly vs. local alias, alias from a third package, renamed import, parenthesised type, alias of the pointer type - and per-site verdicts must be equal (once-per-file codes: same types reported in the using package).",
    "go/types identity; direct-spelling verdicts judged by C01-C04", "2/C13"),
+ "C12": ("model_checking", "E1 histmc",
+   "metamorphic exploration of the layout-transformation group over every base history",
+   "For every base program (declaration histories of the C01-C04 universes) the whole transformation family - all permutations of declarations x all assignments to two files, blank lines/comments, gofmt-preimage whitespace, renaming of locals/receivers, and their pairwise compositions (thorough) - is applied and both programs are analysed by the real analyzers; verdicts keyed by (declaration, statement, code) must be unchanged.",
+   "transformations are semantics-preserving by construction (whitespace one verified against go/format on every program)", "2/C12"),
+ "C16": ("model_checking", "E2 seqmc",
+   "explicit-state enumeration of all add-operation sequences on the real util.IgnoreSet against a list-scan reference model",
+   "Exactly the quantifier's space: all sequences of <=3 operations over the 206-operation alphabet (quick) and all sequences of 4 single-token operations plus wider ranges at depth 2 (thorough), from the zero value, &IgnoreSet{} and nil, each followed by all 56 queries, compared with a linear-scan reference.",
+   "public API only (Add, AddModuleIgnore, Contains); positions are small integers standing for token.Pos", "2/C16"),
 }
 
 NA_REASON = "check not built yet in this round (planned, see DESIGN.md section 2)"
@@ -58,8 +66,10 @@ def main():
             "add_only": True,
         },
         "engines": [
-            {"name": "E1 histmc", "path": "/verif/mc/internal/e1", "serves_properties": ["C01", "C02", "C03", "C04", "C13"],
+            {"name": "E1 histmc", "path": "/verif/mc/internal/e1", "serves_properties": ["C01", "C02", "C03", "C04", "C12", "C13"],
              "kind_free_text": "explicit-state search over declaration/statement histories; successor = history + one declaration, re-rendered and re-analysed by the real analyzers (checker.Analyze)"},
+            {"name": "E2 seqmc", "path": "/verif/mc/internal/checks", "serves_properties": ["C16"],
+             "kind_free_text": "exhaustive enumeration of inputs / operation sequences through the public API against a boring reference model"},
         ],
         "checks": checks,
         "notes": "All checks run the real code of /repo (rebuilt from the working tree on every invocation). known_findings.json lists recorded and fixed defects.",
